@@ -46,9 +46,11 @@ theorem C02_put_complete (c c' : Cell) (aid : Nat) (a : App) (placed : Bool)
   put_complete hall hagg hcur ha hs hup hanc hfit h
 
 /-- **C02 (one partition queue).**  From the state in which `_find_placements` is called: a pending
-    instance `p` (not blacklisted, not over its cap, no identity group, never evicted) for which some
+    instance `p` (not blacklisted, not over its cap, never evicted, holding no identity; if it belongs
+    to an identity group, the group offers an identity) for which some
     up server passes the `Server.put` checks is placed by the call, provided the instances ahead of it
-    in the queue are quiescent (none of them ends on a server it was not on before the call) and
+    in the queue are quiescent (none of them ends on a server it was not on before the call, or - when
+    the probe needs an identity - holding an identity it did not hold before the call) and
     belong to allocations of the probe's partition (the queue is one partition's).  The state at the
     probe's turn then offers at least the room of the start state (`fits_mono`), every record of the
     feasibility tracker is sound (`TrackerOk`: a record `(shape, demand)` is only written after
@@ -60,9 +62,11 @@ theorem C02_queue {c0 c' : Cell} {p : Nat} {ap : App} {queue : List (Nat × Bool
     (hlbl : ∀ y, AheadOf p (queue.map (·.1)) y → ∀ ay, c0.app? y = some ay →
       (c0.allocInfo ay.alloc).label = (c0.allocInfo ap.alloc).label)
     (h : findPlacements c0 queue ch = .ok (c', ch'))
-    (hquiet : ∀ y, AheadOf p (queue.map (·.1)) y → ¬ MovedTo c0 c' y) :
+    (hquiet : ∀ y, AheadOf p (queue.map (·.1)) y → ¬ MovedTo c0 c' y)
+    (hinvid : InvId c0)
+    (hidquiet : ∀ g, ap.group = some g → ∀ y, AheadOf p (queue.map (·.1)) y → ¬ IdMovedTo c0 c' y) :
     ∃ a' sid', c'.app? p = some a' ∧ a'.server = some sid' :=
-  findPlacements_probe h0 hagg hcur hh hnd hp hlbl h hquiet
+  findPlacements_probe h0 hagg hcur hh hnd hp hlbl h hquiet hinvid hidquiet
 
 /-- **C02 (whole cycle).**  In a state satisfying the invariants (every reachable state:
     `C02_aggregates`), a new pending instance for which some up server of its partition has the required
@@ -72,19 +76,26 @@ theorem C02_queue {c0 c' : Cell} {p : Nat} {ap : App} {queue : List (Nat × Bool
     partition's queue ends the cycle on a server it was not on after the pre-passes.  The queues of
     different partitions are disjoint and the instances ahead in the probe's queue belong to
     allocations of its partition (which is how the queues are built).
-    *Partial* with respect to the property's statement in one way, decided by the correspondence run
-    and the probe/oracle monitor instead: instances with an identity group. -/
-theorem C02_cycle_partial (c c' : Cell) (qa : List (List (Nat × Bool))) (q : List (Nat × Bool))
+    If the instance belongs to an identity group, the group offers an identity (`ProbeHyp.idFree`:
+    "an identity is free if it needs one") and quiescence includes identities: none of those instances
+    ends the cycle holding an identity it did not hold after the pre-passes.  (`InvId` is the C05
+    invariant of every reachable state.) -/
+theorem C02_cycle (c c' : Cell) (qa : List (List (Nat × Bool))) (q : List (Nat × Bool))
     (qb : List (List (Nat × Bool))) (ch : List Nat) (p : Nat) (ap : App)
     (h0 : AffAll c) (hagg : AggOk c) (hcur : CurOk c.tree) (hh : ProbeHyp c p ap)
     (hnd : (q.map (·.1)).Nodup) (hp : (p, false) ∈ q)
     (hdisj : ∀ q' ∈ qa ++ qb, ∀ y ∈ q.map (·.1), y ∉ q'.map (·.1))
     (hdisj2 : ∀ q1 ∈ qa, ∀ q2 ∈ qb, ∀ y ∈ q1.map (·.1), y ∉ q2.map (·.1))
+    (hndqa : ∀ q1 ∈ qa, (q1.map (·.1)).Nodup)
+    (hpwqa : qa.Pairwise (fun a b => ∀ y ∈ a.map (·.1), y ∉ b.map (·.1)))
+    (hinvid : InvId c)
     (hlbl : ∀ y, AheadOf p (q.map (·.1)) y → ∀ ay, c.app? y = some ay →
       (c.allocInfo ay.alloc).label = (c.allocInfo ap.alloc).label)
     (h : schedule c (qa ++ q :: qb) ch = .ok c')
     (hquiet : ∀ cpre, prePasses c = .ok cpre → ∀ y,
-      ((∃ q1 ∈ qa, y ∈ q1.map (·.1)) ∨ AheadOf p (q.map (·.1)) y) → ¬ MovedTo cpre c' y) :
+      ((∃ q1 ∈ qa, y ∈ q1.map (·.1)) ∨ AheadOf p (q.map (·.1)) y) → ¬ MovedTo cpre c' y)
+    (hidquiet : ∀ g, ap.group = some g → ∀ cpre, prePasses c = .ok cpre → ∀ y,
+      ((∃ q1 ∈ qa, y ∈ q1.map (·.1)) ∨ AheadOf p (q.map (·.1)) y) → ¬ IdMovedTo cpre c' y) :
     ∃ a' sid', c'.app? p = some a' ∧ a'.server = some sid' := by
   simp only [schedule, bind_ok] at h
   obtain ⟨c1, hpre, ⟨c2, rest⟩, hf, h⟩ := h
@@ -110,7 +121,7 @@ theorem C02_cycle_partial (c c' : Cell) (qa : List (List (Nat × Bool))) (q : Li
     obtain ⟨b', hb', e⟩ := preOk_servers hpreL y b hb
     rw [hb0] at hb'; cases hb'; exact e
   have hsame1 : c1.app? p = some ap := by
-    rw [preOk_unplaced h0.cap hpreL hh.app hh.unplaced hh.noGroup]; exact hh.app
+    rw [preOk_unplaced h0.cap hpreL hh.app hh.unplaced hh.noId]; exact hh.app
   obtain ⟨S, s0, anc0, hs0, hup0, hanc0, hfit0⟩ := hh.fits
   obtain ⟨s1, hs1, ests⟩ := srv?_stat_to hstat1 hs0
   have hname : S ∈ c1.tree.names :=
@@ -154,8 +165,27 @@ theorem C02_cycle_partial (c c' : Cell) (qa : List (List (Nat × Bool))) (q : Li
     leaves_sub_names _ _ ((hallk.tree.leaves S).mpr ⟨sk, srv?_mem hsk, srv?_id hsk⟩)
   obtain ⟨anck, hanck⟩ := path_exists _ S hnamek
   have hfitk := fits_mono (y := p) hall1 hrk hcleank hsame1 hsamek hs1 hsk hanc1 hanck hfit1
+  have hinvid1 : InvId c1 := invId_reach hinvid hr1
+  -- identities of the probe's group offered before the cycle are still offered after the earlier partitions
+  have hkfk : ∀ g, ap.group = some g → ∃ k, KFree ck g k := by
+    intro g hg
+    obtain ⟨k, hk⟩ := hh.idFree g hg
+    have hk1 : KFree c1 g k := kfree_preOk_lreach hpreL hk
+    refine ⟨k, cycle_kfree hcya hinvid1 hndqa hpwqa ?_ hk1⟩
+    intro q1 hq1 y hyq1 hm
+    apply hidquiet g hg c1 hpre y (Or.inl ⟨q1, hq1, hyq1⟩)
+    obtain ⟨b0, b, k', hb0, hb, hbk, hne⟩ := hm
+    obtain ⟨b2, hb2, _⟩ := app?_stat_to (sameStatic_reach hcyrest.toReach) hb
+    have hnot : ∀ q' ∈ q :: qb, y ∉ q'.map (·.1) := by
+      intro q' hq' hyq'
+      rcases List.mem_cons.mp hq' with rfl | hq'
+      · exact hdisj q1 (List.mem_append_left _ hq1) y hyq' hyq1
+      · exact hdisj2 q1 hq1 q' hq' y hyq1 hyq'
+    obtain ⟨bk, hbk', _, e, _⟩ := cycle_untouched hcyrest hnot b2 hb2
+    rw [hb] at hbk'; cases hbk'
+    exact ⟨b0, b2, k', hb0, hb2, by rw [e]; exact hbk, hne⟩
   have hhk : ProbeHyp ck p ap :=
-    ⟨hsamek, hh.unplaced, hh.notBl, hh.noRenew, hh.noGroup, hh.fresh, S, sk, anck, hsk, hupk, hanck, hfitk⟩
+    ⟨hsamek, hh.unplaced, hh.notBl, hh.noRenew, hh.noId, hh.fresh, ⟨S, sk, anck, hsk, hupk, hanck, hfitk⟩, hkfk⟩
   -- the probe's partition
   have hstable : ∀ y ∈ q.map (·.1), ∀ b2, c2.app? y = some b2 → ∃ bq, cq.app? y = some bq ∧ b2.server = bq.server := by
     intro y hy b2 hb2
@@ -184,6 +214,20 @@ theorem C02_cycle_partial (c c' : Cell) (qa : List (List (Nat × Bool))) (q : Li
       obtain ⟨b1, hb1, e1, _, _⟩ :=
         cycle_untouched hcya (fun q' hq' => hdisj q' (List.mem_append_left _ hq') y hyq) b0 hb0
       exact ⟨b1, b2, t, hb1, hb2, by rw [e]; exact hbt, by rw [← e1]; exact hne⟩)
+    (invId_reach hinvid1 hrk)
+    (by
+      intro g hg y hy hm
+      apply hidquiet g hg c1 hpre y (Or.inr hy)
+      obtain ⟨b0, b, k', hb0, hb, hbk, hne⟩ := hm
+      obtain ⟨l1, l2, el, hy1, _⟩ := hy
+      have hyq : y ∈ q.map (·.1) := by rw [el]; exact List.mem_append_left _ hy1
+      obtain ⟨b2, hb2, _⟩ := app?_stat_to (sameStatic_reach hcyb.toReach) hb
+      obtain ⟨bq, hbq, _, e, _⟩ :=
+        cycle_untouched hcyb (fun q' hq' => hdisj q' (List.mem_append_right _ hq') y hyq) b2 hb2
+      rw [hb] at hbq; cases hbq
+      obtain ⟨b1, hb1, _, e1, _⟩ :=
+        cycle_untouched hcya (fun q' hq' => hdisj q' (List.mem_append_left _ hq') y hyq) b0 hb0
+      exact ⟨b1, b2, k', hb1, hb2, by rw [e]; exact hbk, by rw [← e1]; exact hne⟩)
   obtain ⟨a2, ha2, _⟩ := app?_stat_to (sameStatic_reach hcyb.toReach) ha'
   obtain ⟨bq, hbq, e⟩ := hstable p hpq a2 ha2
   rw [ha'] at hbq; cases hbq
@@ -223,5 +267,19 @@ example : guardsB (Cell.init 100 3) c02Ops2 = true ∧ limGuardsB (Cell.init 100
 
 example : (runOps (Cell.init 100 3) c02Ops2).toOption.map (fun c => c.apps.map (fun a => (a.id, a.server))) =
     some [(1, some 2), (2, some 1)] := by decide +kernel
+
+/-! A probe of an identity group: instance 1 holds identity 0 of group 1 (count 2); the cell is quiescent;
+    the probe (instance 2 of the group) takes the identity that is still offered and is placed. -/
+def c02Ops3 : List Op :=
+  [.addBucket 101 100 2, .addServer 1 101 ⟨10, 10, 10⟩ 0 0 1000, .setAlloc 1 ⟨0, 0, 0⟩,
+   .configureGroup 1 2, .addApp { c02App 1 4 with group := some 1 }, .tick 5, .schedule [[(1, false)]] [0],
+   .schedule [[(1, false)]] [],
+   .addApp { c02App 2 4 with group := some 1 }, .schedule [[(1, false), (2, false)]] [1]]
+
+example : guardsB (Cell.init 100 3) c02Ops3 = true ∧ limGuardsB (Cell.init 100 3) c02Ops3 = true := by
+  decide +kernel
+
+example : (runOps (Cell.init 100 3) c02Ops3).toOption.map (fun c => c.apps.map (fun a => (a.id, a.server, a.identity))) =
+    some [(1, some 1, some 0), (2, some 1, some 1)] := by decide +kernel
 
 end TmVerif.Sched
